@@ -70,10 +70,31 @@ def gen_case(rng, idx, tier):
         elif r < 0.4 and not any(d.periodic for d in dims):
             dims = [Dim(d.name, d.vlo, d.vhi, d.w, d.periodic, None, d.vhi + d.w * rng.randint(1, 3), None) for d in dims]
             case["grid_keys"] = ("upperBoundary",)
+        decimal = rng.random() < 0.2
+        if decimal:
+            # decimal (not exactly representable) boundaries and widths whose quotient is a whole number of bins
+            # mathematically but not necessarily in floating point (0.7/0.1 = 6.999...): the grid must still have
+            # that many bins; samples sit well inside bins so that the binning itself is unambiguous
+            from decimal import Decimal
+            dims = []
+            for n in ["d2", "d3"][:rng.choice([1, 1, 2])]:
+                w = rng.choice(["0.1", "0.2", "0.3", "0.05", "0.7", "0.6", "1.1"])
+                lo = rng.choice(["0", "0.5", "2", "10", "-0.3", "-1.2", "0.1"])
+                k = rng.randint(2, 9)
+                hi = str(Decimal(lo) + k * Decimal(w))
+                if rng.random() < 0.5:
+                    dims.append(Dim(n, float(lo), float(hi), float(w), False))
+                else:
+                    dims.append(Dim(n, -4.0, 4.0, 1.0, False, float(lo), float(hi), float(w)))
+                dims[-1].n = k
+            case["grid_keys"] = ("lowerBoundary", "upperBoundary", "width")
+        case["decimal"] = decimal
         case["dims"] = dims
         case["hist"] = []
         for d in dims:
-            if d.name == "d1":
+            if decimal:
+                case["hist"].append([d.glo + (rng.randint(-2, d.n + 1) + 0.5 + rng.choice([-0.25, -0.125, 0.0, 0.125, 0.25])) * d.gw for _ in range(T + 1)])
+            elif d.name == "d1":
                 case["hist"].append([ctl.dy(rng, 1.0, 9.5, 2) for _ in range(T + 1)])
             elif d.periodic:
                 case["hist"].append([ctl.dy(rng, -13.0, 13.0, 2) for _ in range(T + 1)])
@@ -143,7 +164,7 @@ def check_case(c, case, r, ev, sp, prefix):
     for n in shape:
         ncell *= n
     exp = [0.0] * ncell
-    key = "%s:nd%d:%s%s%s" % (case["kind"], len(dims), "periodic" if any(d.periodic for d in dims) else "open",
+    key = "%s:nd%d:%s%s%s" % (case["kind"] + ("_decimal_grid" if case.get("decimal") else ""), len(dims), "periodic" if any(d.periodic for d in dims) else "open",
                               ":customgrid" if any(d.glo != d.vlo or d.ghi != d.vhi or d.gw != d.w for d in dims) else "",
                               ":step0" if case["step0"] else "")
     evs = [e for e in ev if e["ev"] in ("step", "mark")]
